@@ -165,6 +165,12 @@ func (s *Solver) declare(name, sort string) {
 	}
 }
 
+func (s *Solver) setTimeout(ms int) {
+	if s.kind == kindZ3 {
+		s.raw(fmt.Sprintf("(set-option :timeout %d)", ms))
+	}
+}
+
 func (s *Solver) push() { s.raw("(push 1)"); s.depth++ }
 func (s *Solver) pop(n int) {
 	if n > 0 {
